@@ -535,3 +535,133 @@ pub mod sched {
         }
     }
 }
+
+/// Wrappers for the write batch and version change (manifest record) codecs.
+pub mod codecs {
+    use crate::batch::Batch;
+    use crate::key::InternalKey;
+    use crate::versioning::VersionChangeManifest;
+    use crate::Operation;
+
+    /// (is_put, key, value)
+    pub type Op = (bool, Vec<u8>, Vec<u8>);
+
+    pub fn batch_bytes(starting_seq: u64, ops: &[Op]) -> Vec<u8> {
+        let mut batch = Batch::new();
+        for (is_put, key, value) in ops {
+            if *is_put {
+                batch.add_put(key.clone(), value.clone());
+            } else {
+                batch.add_delete(key.clone());
+            }
+        }
+        batch.set_starting_seq_number(starting_seq);
+        Vec::<u8>::from(&batch)
+    }
+
+    pub fn batch_parse(bytes: &[u8]) -> Result<(u64, Vec<Op>), String> {
+        let batch = Batch::try_from(bytes).map_err(|e| format!("{:?}", e))?;
+        let ops = batch
+            .iter()
+            .map(|el| {
+                (
+                    el.get_operation() == Operation::Put,
+                    el.get_key().to_vec(),
+                    el.get_value().cloned().unwrap_or_default(),
+                )
+            })
+            .collect();
+        Ok((batch.get_starting_seq_number().unwrap_or(0), ops))
+    }
+
+    /// (user key, sequence, operation tag)
+    pub type Key = (Vec<u8>, u64, u8);
+
+    /// A version change: optional scalar fields, compaction pointers, deleted (level, number),
+    /// new files (level, number, size, smallest, largest).
+    #[derive(Clone, Debug, Default, PartialEq, Eq)]
+    pub struct Change {
+        pub wal: Option<u64>,
+        pub prev_wal: Option<u64>,
+        pub curr_file: Option<u64>,
+        pub prev_seq: Option<u64>,
+        pub pointers: Vec<(usize, Key)>,
+        pub deleted: Vec<(usize, u64)>,
+        pub new_files: Vec<(usize, u64, u64, Key, Key)>,
+    }
+
+    fn mk_key(k: &Key) -> InternalKey {
+        InternalKey::new(
+            k.0.clone(),
+            k.1,
+            if k.2 == 0 {
+                Operation::Delete
+            } else {
+                Operation::Put
+            },
+        )
+    }
+
+    fn un_key(k: &InternalKey) -> Key {
+        (
+            k.get_user_key().to_vec(),
+            k.get_sequence_number(),
+            k.get_operation() as u8,
+        )
+    }
+
+    pub fn change_bytes(change: &Change) -> Vec<u8> {
+        let mut manifest = VersionChangeManifest {
+            wal_file_number: change.wal,
+            prev_wal_file_number: change.prev_wal,
+            curr_file_number: change.curr_file,
+            prev_sequence_number: change.prev_seq,
+            ..VersionChangeManifest::default()
+        };
+        for (level, key) in &change.pointers {
+            manifest.add_compaction_pointer(*level, mk_key(key));
+        }
+        for (level, number) in &change.deleted {
+            manifest.remove_file(*level, *number);
+        }
+        for (level, number, size, smallest, largest) in &change.new_files {
+            manifest.add_file(*level, *number, *size, mk_key(smallest)..mk_key(largest));
+        }
+        Vec::<u8>::from(&manifest)
+    }
+
+    pub fn change_parse(bytes: &[u8]) -> Result<Change, String> {
+        let manifest = VersionChangeManifest::try_from(bytes).map_err(|e| format!("{:?}", e))?;
+        let mut deleted: Vec<(usize, u64)> = manifest
+            .deleted_files
+            .iter()
+            .map(|d| (d.level, d.file_number))
+            .collect();
+        deleted.sort_unstable();
+        Ok(Change {
+            wal: manifest.wal_file_number,
+            prev_wal: manifest.prev_wal_file_number,
+            curr_file: manifest.curr_file_number,
+            prev_seq: manifest.prev_sequence_number,
+            pointers: manifest
+                .compaction_pointers
+                .iter()
+                .map(|(l, k)| (*l, un_key(k)))
+                .collect(),
+            deleted,
+            new_files: manifest
+                .new_files
+                .iter()
+                .map(|(l, f)| {
+                    (
+                        *l,
+                        f.file_number(),
+                        f.get_file_size(),
+                        un_key(f.smallest_key()),
+                        un_key(f.largest_key()),
+                    )
+                })
+                .collect(),
+        })
+    }
+}
